@@ -241,41 +241,52 @@ def updateGlue (v : Variant) (ver : Ver) (name : Name) (isGlue : Bool) : Ver :=
   else
     { ver with nodes := pre ++ sub.map (glueStep ver.changed isGlue) ++ post, changed := changed' }
 
+/-- the NS branch of `put_rdataset`: set DELEGATION, and for a name new to the index add it and walk the
+subtree.  `node0` is the node object returned by `_maybe_cow_with_name`; returns the version and the node object. -/
+def putNS (v : Variant) (ver1 : Ver) (node0 : Node) (name : Name) (k : RdKey) : Ver × Node :=
+  if isNS k && !(node0.flags.origin || node0.flags.glue) then
+    if !dmem ver1.delegs name then
+      (updateGlue v { ver1 with delegs := dins ver1.delegs name } name true,
+        ({ node0 with flags := { node0.flags with deleg := true } } : Node))
+    else (ver1, ({ node0 with flags := { node0.flags with deleg := true } } : Node))
+  else (ver1, node0)
+
+/-- `node.replace_rdataset(rdataset)` and, in the repaired variant, the un-delegation when the NS rdataset was
+dropped by the CNAME / other-data exclusion; the node object is then (re)stored -/
+def putFinish (v : Variant) (ver2 : Ver) (node1 : Node) (name : Name) (k : RdKey) : Ver :=
+  if v.fixCname && node1.flags.deleg && !hasNS (replaceRds node1.rds k) then
+    { updateGlue v { ver2 with delegs := ddel ver2.delegs name } name false with
+      nodes := nins (updateGlue v { ver2 with delegs := ddel ver2.delegs name } name false).nodes name
+        { rds := replaceRds node1.rds k, flags := { node1.flags with deleg := false } } }
+  else { ver2 with nodes := nins ver2.nodes name { node1 with rds := replaceRds node1.rds k } }
+
 /-- `WritableVersion.put_rdataset` -/
 def putRdataset (v : Variant) (cfg : Cfg) (ver : Ver) (name0 : Name) (k : RdKey) : Except ZErr Ver :=
   match vname cfg name0 with
   | .error e => .error e
   | .ok name =>
-    let (ver1, node0) := maybeCow v cfg ver name
-    let (ver2, node1) :=
-      if isNS k && !(node0.flags.origin || node0.flags.glue) then
-        let node1 : Node := { node0 with flags := { node0.flags with deleg := true } }
-        if !dmem ver1.delegs name then
-          (updateGlue v { ver1 with delegs := dins ver1.delegs name } name true, node1)
-        else (ver1, node1)
-      else (ver1, node0)
-    let node2 : Node := { node1 with rds := replaceRds node1.rds k }
-    let (ver3, node3) :=
-      if v.fixCname && node2.flags.deleg && !hasNS node2.rds then
-        (updateGlue v { ver2 with delegs := ddel ver2.delegs name } name false,
-          ({ node2 with flags := { node2.flags with deleg := false } } : Node))
-      else (ver2, node2)
-    .ok { ver3 with nodes := nins ver3.nodes name node3 }
+    .ok (putFinish v (putNS v (maybeCow v cfg ver name).1 (maybeCow v cfg ver name).2 name k).1
+      (putNS v (maybeCow v cfg ver name).1 (maybeCow v cfg ver name).2 name k).2 name k)
+
+/-- the NS branch of `delete_rdataset`: clear DELEGATION, drop the index entry, walk the subtree -/
+def delNS (v : Variant) (ver1 : Ver) (node0 : Node) (name : Name) (k : RdKey) : Ver × Node :=
+  if isNS k && dmem ver1.delegs name then
+    (updateGlue v { ver1 with delegs := ddel ver1.delegs name } name false,
+      ({ node0 with flags := { node0.flags with deleg := false } } : Node))
+  else (ver1, node0)
+
+/-- `node.delete_rdataset(...)`; an empty node is removed from the store -/
+def delFinish (ver2 : Ver) (node1 : Node) (name : Name) (k : RdKey) : Ver :=
+  if (deleteRds node1.rds k).isEmpty then { ver2 with nodes := ndel ver2.nodes name }
+  else { ver2 with nodes := nins ver2.nodes name { node1 with rds := deleteRds node1.rds k } }
 
 /-- `WritableVersion.delete_rdataset` -/
 def deleteRdataset (v : Variant) (cfg : Cfg) (ver : Ver) (name0 : Name) (k : RdKey) : Except ZErr Ver :=
   match vname cfg name0 with
   | .error e => .error e
   | .ok name =>
-    let (ver1, node0) := maybeCow v cfg ver name
-    let (ver2, node1) :=
-      if isNS k && dmem ver1.delegs name then
-        (updateGlue v { ver1 with delegs := ddel ver1.delegs name } name false,
-          ({ node0 with flags := { node0.flags with deleg := false } } : Node))
-      else (ver1, node0)
-    let node2 : Node := { node1 with rds := deleteRds node1.rds k }
-    if node2.rds.isEmpty then .ok { ver2 with nodes := ndel ver2.nodes name }
-    else .ok { ver2 with nodes := nins ver2.nodes name node2 }
+    .ok (delFinish (delNS v (maybeCow v cfg ver name).1 (maybeCow v cfg ver name).2 name k).1
+      (delNS v (maybeCow v cfg ver name).1 (maybeCow v cfg ver name).2 name k).2 name k)
 
 /-- `WritableVersion.delete_node` -/
 def deleteNode (v : Variant) (cfg : Cfg) (ver : Ver) (name0 : Name) : Except ZErr Ver :=
@@ -349,6 +360,10 @@ structure Txn where
 (a plain `dns.zone.WritableVersion`, from which only a *replacement* writer can start) -/
 abbrev ZState := Option (Nodes × List Name)
 
+/-- the state of a new zone: `dns.versioned.Zone.__init__` installs either a plain `dns.zone.WritableVersion`
+(`false`; the pinned snapshot) or an empty immutable B-tree version built with the zone's factories (`true`) -/
+def initState (emptyBTreeVersion : Bool) : ZState := if emptyBTreeVersion then some ([], []) else none
+
 /-- the writable version a transaction starts from (`WritableVersion.__init__`) -/
 def beginTxn (z : ZState) (replacement : Bool) : Except ZErr Ver :=
   if replacement then .ok { nodes := [], delegs := [], changed := [] }
@@ -382,29 +397,31 @@ structure Bounds where
 def lastLabels (v : Variant) (name : Name) (k : Nat) : Name :=
   if k == 0 && !v.fixCE then name else name.drop (name.length - k)
 
+/-- `bounds` after the name has been validated -/
+def boundsAt (v : Variant) (cfg : Cfg) (nodes : Nodes) (delegs : List Name) (name : Name) : Except ZErr Bounds :=
+  let originLen := if cfg.relativize then 0 else cfg.origin.length
+  let cut? := (getDelegation delegs name).1
+  let target := match cut? with
+    | some cut => cut
+    | none => name
+  let les := nodes.takeWhile (fun e => cmpOrder e.1 target ≤ 0)
+  let gts := nodes.dropWhile (fun e => cmpOrder e.1 target ≤ 0)
+  let left? := if v.fixLeft then (les.filter (fun e => !e.2.flags.glue)).getLast? else les.getLast?
+  match left? with
+  | none => .error .assertion
+  | some left =>
+    let right? := gts.find? (fun e => !e.2.flags.glue)
+    let rcn := match right? with
+      | some r => (fullcompare r.1 name).2.2
+      | none => originLen
+    .ok { name := name, left := left.1, right := right?.map (·.1),
+          closestEncloser := lastLabels v name (max (fullcompare left.1 name).2.2 rcn),
+          isEqual := (fullcompare left.1 name).1 == 3, isDelegation := cut?.isSome }
+
 def bounds (v : Variant) (cfg : Cfg) (nodes : Nodes) (delegs : List Name) (name0 : Name) : Except ZErr Bounds :=
   match vname cfg name0 with
   | .error e => .error e
-  | .ok name =>
-    let originLen := if cfg.relativize then 0 else cfg.origin.length
-    let (target, isDeleg) :=
-      match (getDelegation delegs name).1 with
-      | some cut => (cut, true)
-      | none => (name, false)
-    let les := nodes.takeWhile (fun e => cmpOrder e.1 target ≤ 0)
-    let gts := nodes.dropWhile (fun e => cmpOrder e.1 target ≤ 0)
-    let left? := if v.fixLeft then (les.filter (fun e => !e.2.flags.glue)).getLast? else les.getLast?
-    match left? with
-    | none => .error .assertion
-    | some left =>
-      let right? := gts.find? (fun e => !e.2.flags.glue)
-      let lc := fullcompare left.1 name
-      let rcn := match right? with
-        | some r => (fullcompare r.1 name).2.2
-        | none => originLen
-      .ok { name := name, left := left.1, right := right?.map (·.1),
-            closestEncloser := lastLabels v name (max lc.2.2 rcn),
-            isEqual := lc.1 == 3, isDelegation := isDeleg }
+  | .ok name => boundsAt v cfg nodes delegs name
 
 /-! ## the specification: functions of zone content only (documentation of `dns/btreezone.py`) -/
 
@@ -459,6 +476,95 @@ def boundsSpec (cfg : Cfg) (nodes : Nodes) (name : Name) : Option Bounds :=
 /-- flags and index agree with the specification -/
 def consistent (cfg : Cfg) (nodes : Nodes) (delegs : List Name) : Bool :=
   nodes.all (fun e => e.2.flags == flagsSpec cfg nodes e.1) && delegs == delegsSpec cfg nodes
+
+/-! ## guards of the theorems of record
+
+Decidable conditions (computed on the model state) under which the code *as shipped* keeps the derived state
+right; each conjunct is vacuous when the corresponding repair is in, so they are identically `true` for
+`intended`.  They are stated here, next to the model, because the driver reports them along every history. -/
+
+/-- some NS owner strictly below `name` -/
+def nsBelow (N : Nodes) (name : Name) : Bool := N.any (fun e => properSub e.1 name && hasNS e.2.rds)
+
+
+/-- guard of `put_rdataset`: each conjunct is vacuous when the corresponding repair is in.
+1. (D15) no non-NS rdataset is written at a delegation point whose node was not yet copied in this version;
+2. (D16) no delegation point is created above, or removed from above, an NS owner;
+3. no CNAME-kind rdataset is written at a delegation point. -/
+def putGuard (v : Variant) (cfg : Cfg) (ver : Ver) (name : Name) (k : RdKey) : Bool :=
+  (v.fixCow || !(dmem ver.delegs name && !dmem ver.changed name && !isNS k))
+  && (v.fixNested || !(nsBelow ver.nodes name &&
+        ((isNS k && !dmem ver.delegs name && !isOrigin cfg name && !isGlueIdx ver.delegs name)
+          || (dmem ver.delegs name && classify k == Kind.cname))))
+  && (v.fixCname || !(dmem ver.delegs name && classify k == Kind.cname))
+
+
+/-- guard of `delete_rdataset` (D15, D16) -/
+def delRdsGuard (v : Variant) (ver : Ver) (name : Name) (k : RdKey) : Bool :=
+  (v.fixCow || !(dmem ver.delegs name && !dmem ver.changed name && !isNS k))
+  && (v.fixNested || !(nsBelow ver.nodes name && isNS k && dmem ver.delegs name))
+
+
+/-- guard of `delete_node` (D16) -/
+def delNodeGuard (v : Variant) (ver : Ver) (name : Name) : Bool :=
+  v.fixNested || !(nsBelow ver.nodes name && dmem ver.delegs name)
+
+
+/-- guard of one operation (on the raw owner name; a failing or ineffective operation needs no guard) -/
+def opGuard (v : Variant) (cfg : Cfg) (ver : Ver) : Op → Bool
+  | .put n k =>
+    match vname cfg n with
+    | .ok name => putGuard v cfg ver name k
+    | .error _ => true
+  | .delName n =>
+    match vname cfg n with
+    | .ok name => delNodeGuard v ver name
+    | .error _ => true
+  | .delRds n k =>
+    match rdsExists cfg ver n k, vname cfg n with
+    | .ok true, .ok name => delRdsGuard v ver name k
+    | _, _ => true
+  | .delRdata n k hit =>
+    match rdsExists cfg ver n k, vname cfg n with
+    | .ok true, .ok name => if hit then delRdsGuard v ver name k else putGuard v cfg ver name k
+    | _, _ => true
+
+
+/-- guard of a list of operations applied in sequence -/
+def opsGuard (v : Variant) (cfg : Cfg) : Ver → List Op → Bool
+  | _, [] => true
+  | ver, op :: r => opGuard v cfg ver op && opsGuard v cfg (stepOp v cfg ver op) r
+
+
+def txnGuard (v : Variant) (cfg : Cfg) (z : ZState) (t : Txn) : Bool :=
+  match beginTxn z t.replacement with
+  | .ok ver => opsGuard v cfg ver t.ops
+  | .error _ => true
+
+
+def histGuard (v : Variant) (cfg : Cfg) : ZState → List Txn → Bool
+  | _, [] => true
+  | z, t :: r => txnGuard v cfg z t && histGuard v cfg (runTxn v cfg z t) r
+
+
+/-- guard of `bounds` for the decision points left as shipped: (D19) the name is at or below a cut, or the
+greatest node not after it is not glue; (D20) the closest encloser has at least one label -/
+def boundsGuard (v : Variant) (cfg : Cfg) (N : Nodes) (D : List Name) (name : Name) : Bool :=
+  (v.fixLeft || (getDelegation D name).1.isSome ||
+    (match (N.takeWhile (fun e => decide (cmpOrder e.1 name ≤ 0))).getLast? with
+     | some x => !x.2.flags.glue
+     | none => true))
+  && (v.fixCE || ceLen (visible cfg N) name != 0)
+
+
+/-- guard of a `bounds` query on a committed state -/
+def queryGuard (v : Variant) (cfg : Cfg) (q : Name) : ZState → Bool
+  | none => true
+  | some (nodes, delegs) =>
+    match vname cfg q with
+    | .error _ => true
+    | .ok name => boundsGuard v cfg nodes delegs name
+
 
 end BTZ
 end Model
